@@ -51,7 +51,7 @@ fn vtruth(n: usize, b: bool) -> VOut<()> { if b { VOut::Val(vec![(); n], false) 
 /// equality of results: integers by `==`, floats by bit pattern (any NaN equals any NaN)
 trait Same { fn same(&self, o: &Self) -> bool; }
 macro_rules! same_eq { ($($t:ty),*) => { $(impl Same for $t { fn same(&self, o: &Self) -> bool { self == o } })* } }
-same_eq!(i8, u8, i16, u16, i32, u32, i64, u64, (), bool);
+same_eq!(i8, u8, i16, u16, i32, u32, i64, u64, isize, usize, char, (), bool);
 impl Same for f32 { fn same(&self, o: &Self) -> bool { self.to_bits() == o.to_bits() || (self.is_nan() && o.is_nan()) } }
 impl Same for f64 { fn same(&self, o: &Self) -> bool { self.to_bits() == o.to_bits() || (self.is_nan() && o.is_nan()) } }
 
@@ -72,6 +72,10 @@ trait Prim: Copy + Debug + PartialEq + Same + Send + Sync + Zero + One + NumCast
     fn small(j: usize) -> Self;
     /// pairwise distinct labels 1..=120 (routing checks)
     fn lab(k: usize) -> Self { <Self as NumCast>::from(k + 1).expect("label") }
+    /// sweep alphabet of the cast sections: `alpha()` plus every value of the 8-bit types, a +-1 comb (quick) or every value (thorough) of the
+    /// 16-bit types, +-2^k+-1 for every k of the wider integers, and for floats every pattern of the 16 high bits (sign, exponent, leading
+    /// mantissa bits; every 16th in quick) with the low bits all zero and all one
+    fn sweep(_thorough: bool) -> Vec<Self> { Self::alpha() }
 }
 
 trait IntElem: Prim + Eq
@@ -97,10 +101,10 @@ fn boundary<T: IntElem>() -> Vec<T> {
     in_range::<T>(vec![lo, lo + 1, lo / 2 - 1, lo / 2, -(r + 1), -r, -3, -2, -1, 0, 1, 2, 3, 7, r, r + 1, hi / 3, hi / 2, hi / 2 + 1, hi - hi / 4, hi - 1, hi])
 }
 fn all_values<T: IntElem>() -> Vec<T> { (T::min_v()..=T::max_v()).map(T::of).collect() }
-/// thorough alphabet of the wider types: the boundary alphabet plus +-2^k and +-(2^k - 1) (every k for 16 bit, every 4th for 32/64 bit)
+/// thorough alphabet of the wider types: the boundary alphabet plus +-2^k and +-(2^k - 1) (every k for 16 bit, every 2nd for 32/64 bit)
 fn dense<T: IntElem>() -> Vec<T> {
     let mut c: Vec<i128> = boundary::<T>().into_iter().map(|v| v.wide()).collect();
-    let mut k = 0; while k < T::BITS { let p = 1i128 << k; c.extend([p, p - 1, -p, -(p - 1)]); k += if T::BITS == 16 { 1 } else { 4 }; }
+    let mut k = 0; while k < T::BITS { let p = 1i128 << k; c.extend([p, p - 1, -p, -(p - 1)]); k += if T::BITS == 16 { 1 } else { 2 }; }
     in_range::<T>(c)
 }
 /// cast alphabet: boundaries of every primitive range seen from this type
@@ -109,11 +113,19 @@ fn int_cast_alpha<T: IntElem>() -> Vec<T> {
     for k in [7u32, 8, 15, 16, 24, 31, 32, 53, 63] { let p = 1i128 << k; c.extend([p - 1, p, p + 1, -p - 1, -p, -p + 1]); }
     in_range::<T>(c)
 }
+fn int_sweep<T: IntElem>(thorough: bool) -> Vec<T> {
+    let mut c: Vec<i128> = T::alpha().into_iter().map(|v| v.wide()).collect();
+    if T::BITS == 8 || (T::BITS == 16 && thorough) { c.extend(T::min_v()..=T::max_v()); }
+    else if T::BITS == 16 { let mut v = T::min_v(); while v <= T::max_v() { c.extend([v - 1, v, v + 1]); v += 251; } }
+    else { for k in 0..T::BITS { let p = 1i128 << k; c.extend([p - 1, p, p + 1, -p - 1, -p, -p + 1]); if thorough { c.extend([p + p / 2, -(p + p / 2), p / 3, -(p / 3), p - p / 4]); } } }
+    in_range::<T>(c)
+}
 macro_rules! int_elem { ($($t:ident $bits:expr, $signed:expr);*) => { $(
     impl Prim for $t {
         const NAME: &'static str = stringify!($t);
         fn alpha() -> Vec<$t> { int_cast_alpha::<$t>() }
         fn small(j: usize) -> $t { (j % 50 + 2) as $t }
+        fn sweep(thorough: bool) -> Vec<$t> { int_sweep::<$t>(thorough) }
     }
     impl IntElem for $t {
         const BITS: u32 = $bits; const SIGNED: bool = $signed;
@@ -123,15 +135,51 @@ macro_rules! int_elem { ($($t:ident $bits:expr, $signed:expr);*) => { $(
         fn max_v() -> i128 { <$t>::MAX as i128 }
     }
 )* } }
-int_elem!(i8 8, true; u8 8, false; i16 16, true; u16 16, false; i32 32, true; u32 32, false; i64 64, true; u64 64, false);
+int_elem!(i8 8, true; u8 8, false; i16 16, true; u16 16, false; i32 32, true; u32 32, false; i64 64, true; u64 64, false; isize 64, true; usize 64, false);
 
 trait FloatElem: Prim + Bits + Inv<Output = Self> + Euclid + AbsDiffEq<Epsilon = Self> + RelativeEq + UlpsEq {
     /// one representative per float class (+ a few neighbours that separate the approx predicates)
     fn classes() -> Vec<Self>;
     fn of(v: f64) -> Self;
+    /// thorough class alphabet: `classes()` plus ULP neighbours of 1 (2, 4, 5 ULPs above, 1 below), fractional and negative values that separate
+    /// Euclidean from truncating division, the same shapes scaled by 2^+-40 (f32) / 2^+-400 (f64), MAX/2, the predecessor of MAX, the largest subnormal
+    fn classes_ext() -> Vec<Self>;
+    /// targeted pair list of the approx lifts: pairs k ULPs apart (k in 1,2,4,5,6,16) at nine magnitudes and both signs, pairs straddling
+    /// max_relative 0.25 and 1e-3 at three scales, pairs straddling epsilon 1e-3, sign-crossing pairs, infinities / NaN / MAX pairs; both orders
+    fn near_pairs() -> Vec<(Self, Self)>;
+    /// non-finite / negative / huge tolerances
+    fn inf() -> Self; fn nan() -> Self; fn maxv() -> Self; fn subn() -> Self;
 }
-macro_rules! float_elem { ($($t:ident),*) => { $(
+macro_rules! float_elem { ($($t:ident $bits:ident $shift:expr, $exp:expr);*) => { $(
     impl FloatElem for $t {
+        fn inf() -> $t { <$t>::INFINITY } fn nan() -> $t { <$t>::NAN } fn maxv() -> $t { <$t>::MAX } fn subn() -> $t { <$t>::from_bits(1) }
+        fn classes_ext() -> Vec<$t> {
+            let mut v = <$t as FloatElem>::classes();
+            let (big, tiny) = ((2.0 as $t).powi($exp), (2.0 as $t).powi(-$exp));
+            let up = |x: $t, k: $bits| <$t>::from_bits(x.to_bits() + k);
+            v.extend([up(1.0, 2), up(1.0, 4), up(1.0, 5), <$t>::from_bits((1.0 as $t).to_bits() - 1), 1.25, 2.5, -2.5, 7.0, -0.3, 1e-3,
+                big, up(big, 1), big * 1.25, -big, tiny, up(tiny, 1), tiny * 1.25, -tiny,
+                <$t>::MAX / 2.0, <$t>::from_bits(<$t>::MAX.to_bits() - 1), <$t>::from_bits(<$t>::MIN_POSITIVE.to_bits() - 1)]);
+            v
+        }
+        fn near_pairs() -> Vec<($t, $t)> {
+            let (big, tiny) = ((2.0 as $t).powi($exp), (2.0 as $t).powi(-$exp));
+            let up = |x: $t, k: $bits| <$t>::from_bits(x.to_bits() + k);   // k ULPs further from zero (sign kept)
+            let dn = |x: $t, k: $bits| <$t>::from_bits(x.to_bits() - k);
+            let sub = <$t>::from_bits(1);
+            let mut p: Vec<($t, $t)> = Vec::new();
+            for x in [1.0, 0.1, 3.5, big, tiny, <$t>::MIN_POSITIVE, <$t>::MAX / 2.0, -1.0, -big] { for k in [1, 2, 4, 5, 6, 16] { p.push((x, up(x, k))); } }
+            for x in [1.0, big, tiny, -1.0] {
+                p.extend([(x, x * 1.25), (x, up(x * 1.25, 2)), (x, dn(x * 1.25, 2)), (x, x * 1.5), (x, x * 1.001), (x, up(x * 1.001, 2)), (x, dn(x * 1.001, 2)), (x, x * 2.0), (x, x * 4.0)]);
+            }
+            p.extend([(0.0, 1e-3), (0.0, up(1e-3, 1)), (0.0, dn(1e-3, 1)), (0.1, 0.1 + 1e-3), (0.1, 0.1 + 2e-3), (3.5, 3.5 + 1e-3), (3.5, 3.5 + 5e-4), (-7.5, -7.5 - 1e-3),
+                (sub, -sub), (<$t>::MIN_POSITIVE, -<$t>::MIN_POSITIVE), (0.0, -0.0), (tiny, -tiny), (1.0, -1.0), (sub, up(sub, 1)), (sub, up(sub, 5)), (0.0, sub), (0.0, tiny),
+                (<$t>::MAX, <$t>::INFINITY), (<$t>::MAX, -<$t>::MAX), (<$t>::INFINITY, <$t>::INFINITY), (<$t>::INFINITY, <$t>::NEG_INFINITY), (<$t>::NAN, <$t>::NAN), (<$t>::NAN, 1.0),
+                (<$t>::MAX, dn(<$t>::MAX, 1)), (<$t>::MAX, dn(<$t>::MAX, 5)), (big, <$t>::INFINITY), (big, -big), (1.0, 1.0), (big, big), (tiny, tiny)]);
+            let rev: Vec<($t, $t)> = p.iter().map(|&(a, b)| (b, a)).collect();
+            p.extend(rev);
+            p
+        }
         fn classes() -> Vec<$t> {
             let sub = <$t>::from_bits(1);
             vec![0.0, -0.0, sub, -sub, <$t>::MIN_POSITIVE, 0.1, 1.0, -1.0, 1.0 + <$t>::EPSILON, 1.0005, 3.5, -7.5, <$t>::MAX, <$t>::MIN, <$t>::INFINITY, <$t>::NEG_INFINITY, <$t>::NAN]
@@ -152,9 +200,16 @@ macro_rules! float_elem { ($($t:ident),*) => { $(
             out
         }
         fn small(j: usize) -> $t { (j % 50) as $t + 2.5 }
+        fn sweep(thorough: bool) -> Vec<$t> {
+            let mut v = <$t as Prim>::alpha();
+            let low: $bits = ((1 as $bits) << $shift) - 1;
+            let mut k: $bits = 0;
+            while k < 65536 { let hi = k << $shift; v.push(<$t>::from_bits(hi)); v.push(<$t>::from_bits(hi | low)); if thorough { v.push(<$t>::from_bits(hi | (low >> 1) + 1)); } k += if thorough { 1 } else { 16 }; }
+            v
+        }
     }
 )* } }
-float_elem!(f32, f64);
+float_elem!(f32 u32 16, 40; f64 u64 48, 400);
 
 // ---------------------------------------------------------------------------------------------------------------
 // integer lifts (typed hot path)
@@ -390,6 +445,8 @@ fn run_flat<I: Copy + Debug + Send + Sync, D: Copy + Debug + Same + Send + Sync>
             let bad: Option<(&str, String)> = match got {
                 Err(Caught::Unmodelled(w)) => { s.unmodelled(w); None }
                 Err(Caught::Panic(m)) => if w_panic { None } else { Some(("unexpected-panic", m)) },
+                // a conjunction may stop at a failing element before it reaches a panicking one: with both present, `false` and a panic are both per-element outcomes
+                Ok(VOut::Nil) if f.predicate && w_panic && w_nil => None,
                 Ok(_) if w_panic => Some(("missing-panic", "returned although the scalar form panics on some element".into())),
                 Ok(VOut::Nil) => if w_nil { None } else { Some((if f.predicate { "false-although-every-element-holds" } else { "none-although-every-element-is-some" }, "None/false".into())) },
                 Ok(VOut::Val(v, _)) if w_nil => Some((if f.predicate { "true-although-an-element-fails" } else { "some-although-an-element-is-none" }, format!("{:?}", v))),
@@ -430,7 +487,7 @@ fn flat<T: Copy, const N: usize>(a: &A<T, N>) -> Vec<T> { a.iter().flatten().cop
 // ---------------------------------------------------------------------------------------------------------------
 fn float_lifts<V, T: FloatElem>(s: &Section, t: &mut Tally)
 where V: VecN<T> + Copy + Send + Sync + Inv<Output = V> + Euclid {
-    let cl = T::classes();
+    let cl = if s.thorough() { T::classes_ext() } else { T::classes() };
     let pairs: Vec<(T, T)> = cl.iter().flat_map(|&a| cl.iter().map(move |&b| (a, b))).collect();
     let nz = |a: T| !(a == T::zero()) ;
     run_flat(s, t, Flat { site: format!("{}<{}>::inv", V::NAME, T::NAME), tag: "inv", n: V::N, alpha: &cl, safe: &|j| T::small(j), bad: None,
@@ -502,9 +559,12 @@ fn zero_one_mat<M, T: Prim, const N: usize>(s: &Section, t: &mut Tally, name: &s
 // ---------------------------------------------------------------------------------------------------------------
 // casts: as_ (scalar rule: the `as` operator) and numcast (scalar rule: NumCast::from)
 // ---------------------------------------------------------------------------------------------------------------
+/// alphabet of the cast sections: 0 = class alphabet `alpha()`, 1 = `sweep(false)`, 2 = `sweep(true)` (set by main before a section runs)
+static CAST_ALPHABET: std::sync::atomic::AtomicU8 = std::sync::atomic::AtomicU8::new(0);
+fn cast_alphabet<S: Prim>() -> Vec<S> { match CAST_ALPHABET.load(std::sync::atomic::Ordering::SeqCst) { 0 => S::alpha(), 1 => S::sweep(false), _ => S::sweep(true) } }
 fn cast_flat<S: Prim, D: Prim>(s: &Section, t: &mut Tally, ty: &str, n: usize,
     as_whole: &(dyn Fn(&[S]) -> Vec<D> + Sync), nc_whole: Option<&(dyn Fn(&[S]) -> Option<Vec<D>> + Sync)>, as_scalar: fn(S) -> D) {
-    let al = S::alpha();
+    let al = cast_alphabet::<S>();
     let nc = |a: S| opt(<D as NumCast>::from(a));
     let bad = al.iter().copied().find(|&a| nc(a).is_nil());
     let odd = |a: S| nc(a).is_nil() || !a.is_zero();
@@ -551,6 +611,30 @@ macro_rules! cast_ext { ($s:expr, $t:expr, $S:ty => $D:ty) => {
     cast_vecs!($s, $t, $S => $D; Vec4, Vec8, Rgba);
     cast_mat!($s, $t, $S => $D; rm Mat3 3, "row Mat3"); cast_mat!($s, $t, $S => $D; cm Mat3 3, "col Mat3");
 } }
+/// a sweep pair: struct-field, tuple-index, colour vector; one matrix per layout (different sizes); one shape of each of the two-vector macros and Rect3
+macro_rules! cast_sw { ($s:expr, $t:expr, $S:ty => $D:ty) => {
+    cast_vecs!($s, $t, $S => $D; Vec3, Vec8, Rgba);
+    cast_mat!($s, $t, $S => $D; rm Mat2 2, "row Mat2"); cast_mat!($s, $t, $S => $D; cm Mat3 3, "col Mat3");
+    cast_flat::<$S, $D>($s, $t, "Aabb", 6, &|e: &[$S]| { let r = Aabb { min: Vec3 { x: e[0], y: e[1], z: e[2] }, max: Vec3 { x: e[3], y: e[4], z: e[5] } }.as_::<$D>(); vec![r.min.x, r.min.y, r.min.z, r.max.x, r.max.y, r.max.z] }, None, |a: $S| a as $D);
+    cast_flat::<$S, $D>($s, $t, "Rect3", 6, &|e: &[$S]| { let r = Rect3 { x: e[0], y: e[1], z: e[2], w: e[3], h: e[4], d: e[5] }.as_::<$D, $D>(); vec![r.x, r.y, r.z, r.w, r.h, r.d] }, None, |a: $S| a as $D);
+    cast_flat::<$S, $D>($s, $t, "LineSegment2", 4, &|e: &[$S]| { let r = LineSegment2 { start: Vec2 { x: e[0], y: e[1] }, end: Vec2 { x: e[2], y: e[3] } }.as_::<$D>(); vec![r.start.x, r.start.y, r.end.x, r.end.y] }, None, |a: $S| a as $D);
+} }
+/// as_ from the non-numeric primitive sources num_traits::AsPrimitive also covers (bool, char) and towards char
+macro_rules! as_misc { ($s:expr, $t:expr, $S:ty => $D:ty, $al:expr, $safe:expr) => {{
+    let al: Vec<$S> = $al;
+    for_all_vecs!(V => {
+        run_flat($s, $t, Flat { site: format!("{}::as_<{}->{}>", <V<$S> as VecN<$S>>::NAME, stringify!($S), stringify!($D)), tag: "as_ bool/char", n: <V<$S> as VecN<$S>>::N, alpha: &al, safe: &$safe, bad: None,
+            scalar: &|a: $S| val(a as $D), vector: &|e: &[$S]| VOut::Val(<V<$S> as VecN<$S>>::from_elems(e.to_vec()).as_::<$D>().into_elems(), false), predicate: false, interesting: &|_| true });
+        *$t.entry(<V<$S> as VecN<$S>>::NAME.to_string()).or_insert(0) += 1;
+    });
+    run_flat($s, $t, Flat { site: format!("row Mat3::as_<{}->{}>", stringify!($S), stringify!($D)), tag: "as_ bool/char", n: 9, alpha: &al, safe: &$safe, bad: None,
+        scalar: &|a: $S| val(a as $D), vector: &|e: &[$S]| VOut::Val(flat(&dr3(&r3(&unflat::<$S, 3>(e)).as_::<$D>())), false), predicate: false, interesting: &|_| true });
+    run_flat($s, $t, Flat { site: format!("col Mat4::as_<{}->{}>", stringify!($S), stringify!($D)), tag: "as_ bool/char", n: 16, alpha: &al, safe: &$safe, bad: None,
+        scalar: &|a: $S| val(a as $D), vector: &|e: &[$S]| VOut::Val(flat(&dc4(&c4(&unflat::<$S, 4>(e)).as_::<$D>())), false), predicate: false, interesting: &|_| true });
+    run_flat($s, $t, Flat { site: format!("Aabr::as_<{}->{}>", stringify!($S), stringify!($D)), tag: "as_ bool/char", n: 4, alpha: &al, safe: &$safe, bad: None,
+        scalar: &|a: $S| val(a as $D), vector: &|e: &[$S]| { let r = Aabr { min: Vec2 { x: e[0], y: e[1] }, max: Vec2 { x: e[2], y: e[3] } }.as_::<$D>(); VOut::Val(vec![r.min.x, r.min.y, r.max.x, r.max.y], false) }, predicate: false, interesting: &|_| true });
+    *$t.entry(format!("{}->{}", stringify!($S), stringify!($D))).or_insert(0) += 1;
+}} }
 /// Rect / Rect3 convert positions and extents with two independent target types
 fn rect_mixed(s: &Section, t: &mut Tally) {
     let ps = <f32 as Prim>::alpha();
@@ -579,6 +663,23 @@ fn scalar_pred<T: FloatElem>(a: T, b: T, p: Pred<T>) -> bool {
 fn whole_pred<W, T: FloatElem>(x: &W, y: &W, p: Pred<T>) -> bool where W: AbsDiffEq<Epsilon = T> + RelativeEq + UlpsEq {
     match p { Pred::Abs(e) => x.abs_diff_eq(y, e), Pred::Rel(e, m) => x.relative_eq(y, e, m), Pred::Ulps(e, u) => x.ulps_eq(y, e, u) }
 }
+/// the negated trait forms abs_diff_ne / relative_ne / ulps_ne
+fn whole_pred_ne<W, T: FloatElem>(x: &W, y: &W, p: Pred<T>) -> bool where W: AbsDiffEq<Epsilon = T> + RelativeEq + UlpsEq {
+    match p { Pred::Abs(e) => x.abs_diff_ne(y, e), Pred::Rel(e, m) => x.relative_ne(y, e, m), Pred::Ulps(e, u) => x.ulps_ne(y, e, u) }
+}
+/// scalar predicate as a cell (a panic of the scalar form is an outcome, not a crash of the check)
+fn pred_cell<T: FloatElem>(a: T, b: T, p: Pred<T>) -> Cell<()> { match catch(|| scalar_pred(a, b, p)) { Ok(v) => holds(v), Err(_) => Cell { out: Lane::Panic, flag: false } } }
+/// whole eq form; the ne form must be its negation (holds exactly when some pair of corresponding elements fails)
+/// (at most 3 reports per run, counted in `reported`: the key is the same for every operand)
+fn eq_and_ne<W, T: FloatElem>(s: &Section, site: &str, tag: &str, n: usize, ab: (&[T], &[T]), x: &W, y: &W, p: Pred<T>, reported: &std::sync::atomic::AtomicU32) -> VOut<()> where W: AbsDiffEq<Epsilon = T> + RelativeEq + UlpsEq {
+    let eq = whole_pred(x, y, p);
+    let ne = whole_pred_ne(x, y, p);
+    if ne == eq && reported.fetch_add(1, std::sync::atomic::Ordering::Relaxed) < 3 {
+        let f = match tag.trim_start_matches("near ") { "abs_diff_eq" => "abs_diff_ne", "relative_eq" => "relative_ne", _ => "ulps_ne" };
+        s.violation_w(&format!("{}::{}", site, f), "ne-is-not-the-negation-of-eq", json!({"a": jd(&ab.0), "b": jd(&ab.1), "predicate": format!("{:?}", p), "eq": eq, "ne": ne}), n as u64);
+    }
+    vtruth(n, eq)
+}
 fn approx_lift<W, T: FloatElem>(s: &Section, t: &mut Tally, name: &str, n: usize, thorough: bool, build: &(dyn Fn(&[T]) -> W + Sync))
 where W: AbsDiffEq<Epsilon = T> + RelativeEq + UlpsEq {
     // the defaults are lifted from the element type
@@ -590,7 +691,7 @@ where W: AbsDiffEq<Epsilon = T> + RelativeEq + UlpsEq {
             s.violation(&format!("{}::default_epsilon/max_relative/max_ulps", site), "differs-from-element-type", json!({"got": jd(&(e, m, u)), "want": jd(&(T::default_epsilon(), T::default_max_relative(), T::default_max_ulps()))}));
         }
     }
-    let cl = T::classes();
+    let cl = if thorough { T::classes_ext() } else { T::classes() };
     let pairs: Vec<(T, T)> = cl.iter().flat_map(|&a| cl.iter().map(move |&b| (a, b))).collect();
     let mut preds: Vec<(&str, Pred<T>)> = Vec::new();
     for e in [T::default_epsilon(), T::zero(), T::of(1e-3)] {
@@ -599,11 +700,56 @@ where W: AbsDiffEq<Epsilon = T> + RelativeEq + UlpsEq {
         preds.push(("ulps_eq", Pred::Ulps(e, T::default_max_ulps()))); preds.push(("ulps_eq", Pred::Ulps(e, 0)));
         if thorough { preds.push(("relative_eq", Pred::Rel(e, T::zero()))); preds.push(("ulps_eq", Pred::Ulps(e, 1 << 22))); preds.push(("abs_diff_eq", Pred::Abs(T::of(2.0) * e))); }
     }
-    for (tag, p) in preds {
+    let reported = std::sync::atomic::AtomicU32::new(0);
+    for &(tag, p) in &preds {
+        reported.store(0, std::sync::atomic::Ordering::Relaxed);
         run_flat(s, t, Flat { site: format!("{}::{}", site, tag), tag, n, alpha: &pairs, safe: &|j| (T::small(j), T::small(j)), bad: Some((T::one(), T::of(2.0))),
             scalar: &|(a, b): (T, T)| holds(scalar_pred(a, b, p)),
-            vector: &|e: &[(T, T)]| { let (a, b): (Vec<T>, Vec<T>) = e.iter().copied().unzip(); vtruth(n, whole_pred(&build(&a), &build(&b), p)) },
+            vector: &|e: &[(T, T)]| { let (a, b): (Vec<T>, Vec<T>) = e.iter().copied().unzip(); eq_and_ne(s, &site, tag, n, (&a, &b), &build(&a), &build(&b), p, &reported) },
             predicate: true, interesting: &|(a, b)| a.to_bits_u64() != b.to_bits_u64() });
+    }
+    // targeted pairs (k ULPs apart, straddling the relative / absolute thresholds, scaled by 2^+-40 / 2^+-400, sign crossing, non-finite)
+    // under the predicates above and under extreme tolerances (infinite, NaN, negative, MAX, subnormal epsilon; max_relative >= 1, inf, NaN;
+    // max_ulps 1, 4, 5, 16, u32::MAX); the other positions hold unequal-but-close values in the rotating context
+    let near = T::near_pairs();
+    let (d, z) = (T::default_epsilon(), T::zero());
+    let mut xp: Vec<(&str, Pred<T>)> = preds.iter().map(|&(tag, p)| (match tag { "abs_diff_eq" => "near abs_diff_eq", "relative_eq" => "near relative_eq", _ => "near ulps_eq" }, p)).collect();
+    for e in [T::inf(), T::nan(), T::of(-1.0), T::maxv(), T::subn()] { xp.push(("near abs_diff_eq", Pred::Abs(e))); }
+    for (e, m) in [(d, T::one()), (d, T::of(2.0)), (z, T::inf()), (z, T::nan()), (T::inf(), z), (T::of(-1.0), T::of(-1.0)), (z, T::of(1e-3)), (T::nan(), T::of(0.25)), (z, T::of(0.5))] { xp.push(("near relative_eq", Pred::Rel(e, m))); }
+    for (e, u) in [(z, 1u32), (z, 4), (z, 5), (z, 16), (z, u32::MAX), (T::nan(), 4), (T::inf(), 0), (T::of(-1.0), 2), (T::subn(), 1)] { xp.push(("near ulps_eq", Pred::Ulps(e, u))); }
+    for &(tag, p) in &xp {
+        reported.store(0, std::sync::atomic::Ordering::Relaxed);
+        run_flat(s, t, Flat { site: format!("{}::{}", site, tag.trim_start_matches("near ")), tag, n, alpha: &near, safe: &|j| (T::small(j), T::small(j)), bad: Some((T::of(3.5), T::of(-7.5))),
+            scalar: &|(a, b): (T, T)| pred_cell(a, b, p),
+            vector: &|e: &[(T, T)]| { let (a, b): (Vec<T>, Vec<T>) = e.iter().copied().unzip(); eq_and_ne(s, &site, tag, n, (&a, &b), &build(&a), &build(&b), p, &reported) },
+            predicate: true, interesting: &|(a, b)| a.to_bits_u64() != b.to_bits_u64() });
+    }
+    *t.entry(name.to_string()).or_insert(0) += 1;
+    *t.entry(T::NAME.to_string()).or_insert(0) += 1;
+}
+/// AbsDiffEq on integer elements (the only approx trait the integers implement; Epsilon = the element type)
+fn approx_int<W, T: IntElem + AbsDiffEq<Epsilon = T>>(s: &Section, t: &mut Tally, name: &str, n: usize, build: &(dyn Fn(&[T]) -> W + Sync)) where W: AbsDiffEq<Epsilon = T> {
+    let site = format!("{}<{}>", name, T::NAME);
+    s.eval(true);
+    *t.entry("defaults".into()).or_insert(0) += 1;
+    if let Some(e) = s.call(&site, || json!("default_epsilon"), || W::default_epsilon()) {
+        if e != T::default_epsilon() { s.violation(&format!("{}::default_epsilon", site), "differs-from-element-type", json!({"got": jd(&e), "want": jd(&T::default_epsilon())})); }
+    }
+    let (lo, hi) = (T::min_v(), T::max_v());
+    let al = in_range::<T>(vec![lo, lo + 1, lo / 2, -8, -1, 0, 1, 7, 8, hi / 2, hi / 2 + 8, hi - 1, hi]);
+    let pairs: Vec<(T, T)> = al.iter().flat_map(|&a| al.iter().map(move |&b| (a, b))).collect();
+    for e in [T::zero(), T::of(7), T::of(T::max_v())] {
+        let reported = std::sync::atomic::AtomicU32::new(0);
+        run_flat(s, t, Flat { site: format!("{}::abs_diff_eq", site), tag: "int abs_diff_eq", n, alpha: &pairs, safe: &|j| (T::small(j), T::small(j)), bad: Some((T::zero(), T::of(100))),
+            scalar: &|(a, b): (T, T)| match catch(|| T::abs_diff_eq(&a, &b, e)) { Ok(v) => holds(v), Err(_) => Cell { out: Lane::Panic, flag: false } },
+            vector: &|el: &[(T, T)]| {
+                let (a, b): (Vec<T>, Vec<T>) = el.iter().copied().unzip();
+                let (x, y) = (build(&a), build(&b));
+                let eq = x.abs_diff_eq(&y, e);
+                if x.abs_diff_ne(&y, e) == eq && reported.fetch_add(1, std::sync::atomic::Ordering::Relaxed) < 3 { s.violation_w(&format!("{}::abs_diff_ne", site), "ne-is-not-the-negation-of-eq", json!({"a": jd(&a), "b": jd(&b), "epsilon": jd(&e)}), n as u64); }
+                vtruth(n, eq)
+            },
+            predicate: true, interesting: &|(a, b)| a != b });
     }
     *t.entry(name.to_string()).or_insert(0) += 1;
     *t.entry(T::NAME.to_string()).or_insert(0) += 1;
@@ -685,7 +831,7 @@ fn pod_mat<M, T, const N: usize>(s: &Section, t: &mut Tally, name: &str, col_maj
 // ---------------------------------------------------------------------------------------------------------------
 #[cfg(feature = "az")]
 fn az_flat<S: Prim, D: Prim>(s: &Section, t: &mut Tally, ty: &str, n: usize, name: &'static str, scalar: &(dyn Fn(S) -> Cell<D> + Sync), whole: &(dyn Fn(&[S]) -> VOut<D> + Sync)) {
-    let al = S::alpha();
+    let al = if s.thorough() { S::sweep(false) } else { S::alpha() };   // thorough: every 8-bit value, the 16-bit comb, +-2^k+-1, the float pattern comb
     // an element on which the scalar cast fails (None / flag / panic), if the pair has one
     let bad = al.iter().copied().find(|&a| { let c = scalar(a); c.is_nil() || c.is_panic() || c.flag });
     run_flat(s, t, Flat { site: format!("{}::{}<{}->{}>", ty, name, S::NAME, D::NAME), tag: name, n, alpha: &al, safe: &|j| S::small(j), bad,
@@ -770,7 +916,7 @@ fn main() {
             s.meta("contexts", json!(CTX));
         });
     rep.section("integer lifts on wider element types (boundary alphabets)",
-        "the same 20 operations, 13 vector types, every lane position and the 3 contexts on i16,u16,i32,u32,i64,u64: the varied lane runs through the square of the type's boundary alphabet (range ends, halves, square roots of MAX, small values: the points where add/sub/mul/div/neg change regime; thorough: plus +-2^k and +-(2^k-1), every k for 16 bit and every 4th for 32/64 bit). The property text says 'sampled for wider types'; this is a complete enumeration of a stated boundary alphabet, not a random sample. non-trivial as above",
+        "the same 20 operations, 13 vector types, every lane position and the 3 contexts on i16,u16,i32,u32,i64,u64: the varied lane runs through the square of the type's boundary alphabet (range ends, halves, square roots of MAX, small values: the points where add/sub/mul/div/neg change regime; thorough: plus +-2^k and +-(2^k-1), every k for 16 bit and every 2nd for 32/64 bit). The property text says 'sampled for wider types'; this is a complete enumeration of a stated boundary alphabet, not a random sample. non-trivial as above",
         true, false, |s| {
             s.require_classes(&LIFT_CLASSES); s.require_classes(&ALL_TYPES); s.require_classes(&INT_OPS); s.require_classes(&["i16", "u16", "i32", "u32", "i64", "u64"]);
             for_all_vecs!(V => {
@@ -784,7 +930,7 @@ fn main() {
         });
 
     rep.section("float lifts: Inv and Euclid",
-        "Inv::inv, Euclid::{div_euclid, rem_euclid} on the 13 vector types over f32 and f64: every position runs through the float class alphabet (17 values: +-0, +-min subnormal, min normal, 0.1, +-1, 1+ulp, 1.0005, 3.5, -7.5, +-MAX, +-inf, NaN; squared for the binary forms) with the other positions benign or rotating through the alphabet; result compared bit for bit (NaN = NaN) with the scalar operation. non-trivial: operands non-zero",
+        "Inv::inv, Euclid::{div_euclid, rem_euclid} on the 13 vector types over f32 and f64: every position runs through the float class alphabet (17 values: +-0, +-min subnormal, min normal, 0.1, +-1, 1+ulp, 1.0005, 3.5, -7.5, +-MAX, +-inf, NaN; squared for the binary forms) with the other positions benign or rotating through the alphabet; result compared bit for bit (NaN = NaN) with the scalar operation; thorough: the 38-value extended class alphabet (adds ULP neighbours of 1, 1.25, +-2.5, 7, -0.3, 1e-3, values scaled by 2^+-40 (f32) / 2^+-400 (f64), MAX/2, pred(MAX), the largest subnormal). non-trivial: operands non-zero",
         true, false, |s| {
             s.require_classes(&ALL_TYPES); s.require_classes(&["f32", "f64", "inv: plain", "float div_euclid: plain", "float rem_euclid: plain"]);
             let mut t = Tally::new();
@@ -794,10 +940,10 @@ fn main() {
         });
 
     rep.section("Zero / One / is_zero / is_one on vectors and matrices",
-        "13 vector types and 6 matrix types (both layouts) over i8,u8,i32,f32,f64: Zero::zero() and set_zero() hold T::zero() everywhere; One::one()/set_one() hold T::one() everywhere on vectors and the identity on matrices; is_zero (each position through the type's class alphabet, others zero / one other non-zero / rotating) holds exactly when every element is_zero by the scalar rule (so -0.0 counts, NaN does not); is_one likewise against one(). non-trivial: all",
+        "13 vector types and 6 matrix types (both layouts) over i8,u8,u16,i32,i64,f32,f64: Zero::zero() and set_zero() hold T::zero() everywhere; One::one()/set_one() hold T::one() everywhere on vectors and the identity on matrices; is_zero (each position through the type's class alphabet, others zero / one other non-zero / rotating) holds exactly when every element is_zero by the scalar rule (so -0.0 counts, NaN does not); is_one likewise against one(). non-trivial: all",
         true, false, |s| {
             s.require_classes(&ALL_TYPES);
-            s.require_classes(&["row Mat2", "row Mat3", "row Mat4", "col Mat2", "col Mat3", "col Mat4", "i8", "u8", "i32", "f32", "f64",
+            s.require_classes(&["row Mat2", "row Mat3", "row Mat4", "col Mat2", "col Mat3", "col Mat4", "i8", "u8", "i32", "f32", "f64", "u16", "i64",
                 "is_zero: true", "is_zero: false: varied lane only", "is_zero: false: other lanes only", "is_zero: false: both", "is_one: true", "is_one: false",
                 "Zero::zero: value", "Zero::set_zero: value", "One::one: value", "One::set_one: value"]);
             let mut t = Tally::new();
@@ -808,6 +954,7 @@ fn main() {
                 zero_one_mat::<rm::Mat4<$T>, $T, 4>(s, &mut t, "row Mat4"); zero_one_mat::<cm::Mat4<$T>, $T, 4>(s, &mut t, "col Mat4");
             )* } }
             zo!(i8, u8, i32, f32, f64);
+            zo!(u16, i64);
             flush(s, &t);
             s.meta("alphabet_sizes", json!({"i8": i8::alpha().len(), "u8": u8::alpha().len(), "i32": <i32 as Prim>::alpha().len(), "f32": <f32 as Prim>::alpha().len(), "f64": <f64 as Prim>::alpha().len()}));
         });
@@ -819,6 +966,7 @@ fn main() {
                 "as_: plain", "as_: source not representable in the target (saturates / wraps / NaN->0)", "numcast: plain", "numcast: None: varied lane only", "numcast: None: other lanes only", "numcast: None: both",
                 "Rect mixed position/extent types"]);
             let mut t = Tally::new();
+            CAST_ALPHABET.store(0, std::sync::atomic::Ordering::SeqCst);
             cast_core!(s, &mut t, f32 => i8); cast_core!(s, &mut t, f64 => u32); cast_core!(s, &mut t, i32 => u8); cast_core!(s, &mut t, i8 => u32);
             cast_core!(s, &mut t, u64 => f32); cast_core!(s, &mut t, f64 => f32); cast_core!(s, &mut t, i64 => i32); cast_core!(s, &mut t, u8 => f64);
             cast_ext!(s, &mut t, f32 => u8); cast_ext!(s, &mut t, f32 => i32); cast_ext!(s, &mut t, f32 => u64); cast_ext!(s, &mut t, f32 => f64);
@@ -832,12 +980,67 @@ fn main() {
                 "i32": <i32 as Prim>::alpha().len(), "i64": <i64 as Prim>::alpha().len(), "u64": <u64 as Prim>::alpha().len()}));
             s.meta("alphabet_i32", jd(&<i32 as Prim>::alpha()));
         });
+
+    rep.section("element casts: exhaustive / swept source values per position",
+        "as_ and numcast (as_ only on shapes) on Vec3, Vec8, Rgba, row Mat2, col Mat3, Aabb, Rect3, LineSegment2 for 31 source->target pairs, each element position running through the sweep alphabet of the source type: every value of i8/u8; a +-1 comb of step 251 (quick) or every value (thorough) of i16/u16; the class alphabet plus +-2^k+-1 for every k (thorough: also 1.5*2^k, 2^k/3, 0.75*2^k) of the 32/64-bit and pointer-sized integers; for f32/f64 the class alphabet plus every pattern of the 16 high bits (every 16th in quick) with the low bits all zero / all one (thorough: and half). 3 contexts as in the class-alphabet section. Also as_ from bool, from char and towards char (the remaining AsPrimitive sources) on the 13 vector types, row Mat3, col Mat4 and Aabr. Oracle per element: the `as` operator / NumCast::from. non-trivial: element non-zero or unconvertible",
+        true, false, |s| {
+            s.require_classes(&ALL_TYPES);
+            s.require_classes(&["row Mat2", "col Mat3", "Aabb", "Rect3", "LineSegment2", "as_: plain", "numcast: plain", "numcast: None: varied lane only", "numcast: None: other lanes only", "numcast: None: both",
+                "as_ bool/char: plain", "bool->u8", "bool->i64", "u8->char", "char->u32", "char->u8"]);
+            let mut t = Tally::new();
+            CAST_ALPHABET.store(if s.thorough() { 2 } else { 1 }, std::sync::atomic::Ordering::SeqCst);
+            cast_sw!(s, &mut t, i8 => u8); cast_sw!(s, &mut t, i8 => i16); cast_sw!(s, &mut t, i8 => f32); cast_sw!(s, &mut t, u8 => i8); cast_sw!(s, &mut t, u8 => u16); cast_sw!(s, &mut t, u8 => f64);
+            cast_sw!(s, &mut t, i16 => i8); cast_sw!(s, &mut t, i16 => u8); cast_sw!(s, &mut t, i16 => u16); cast_sw!(s, &mut t, i16 => f32); cast_sw!(s, &mut t, u16 => i16); cast_sw!(s, &mut t, u16 => u8);
+            cast_sw!(s, &mut t, i32 => i16); cast_sw!(s, &mut t, i32 => f32); cast_sw!(s, &mut t, u32 => i32); cast_sw!(s, &mut t, i64 => i32); cast_sw!(s, &mut t, i64 => f64); cast_sw!(s, &mut t, u64 => f32); cast_sw!(s, &mut t, u64 => i64);
+            cast_sw!(s, &mut t, isize => i32); cast_sw!(s, &mut t, usize => u8); cast_sw!(s, &mut t, f64 => usize);
+            cast_sw!(s, &mut t, f32 => i8); cast_sw!(s, &mut t, f32 => u8); cast_sw!(s, &mut t, f32 => i16); cast_sw!(s, &mut t, f32 => u32); cast_sw!(s, &mut t, f32 => i64); cast_sw!(s, &mut t, f32 => f64);
+            cast_sw!(s, &mut t, f64 => f32); cast_sw!(s, &mut t, f64 => i32); cast_sw!(s, &mut t, f64 => u64);
+            CAST_ALPHABET.store(0, std::sync::atomic::Ordering::SeqCst);
+            as_misc!(s, &mut t, bool => u8, vec![false, true], |j: usize| j % 2 == 1);
+            as_misc!(s, &mut t, bool => i64, vec![false, true], |j: usize| j % 3 == 1);
+            as_misc!(s, &mut t, u8 => char, (0..=255u8).collect(), |j: usize| (j % 50 + 65) as u8);
+            as_misc!(s, &mut t, char => u32, vec!['\0', 'a', '\u{7f}', '\u{80}', '\u{ff}', '\u{100}', '\u{d7ff}', '\u{e000}', '\u{ffff}', '\u{10000}', '\u{10ffff}'], |j: usize| (b'A' + (j % 50) as u8) as char);
+            as_misc!(s, &mut t, char => u8, vec!['\0', 'a', '\u{7f}', '\u{80}', '\u{ff}', '\u{100}', '\u{d7ff}', '\u{e000}', '\u{ffff}', '\u{10000}', '\u{10ffff}'], |j: usize| (b'A' + (j % 50) as u8) as char);
+            flush(s, &t);
+            s.meta("sweep_alphabet_sizes", json!({"i8": i8::sweep(s.thorough()).len(), "i16": i16::sweep(s.thorough()).len(), "u16": u16::sweep(s.thorough()).len(), "i32": <i32 as Prim>::sweep(s.thorough()).len(),
+                "i64": <i64 as Prim>::sweep(s.thorough()).len(), "u64": <u64 as Prim>::sweep(s.thorough()).len(), "f32": <f32 as Prim>::sweep(s.thorough()).len(), "f64": <f64 as Prim>::sweep(s.thorough()).len()}));
+        });
+    rep.section("closure conversions map / map2 / apply / apply2 on matrices and map on shapes keep element positions",
+        "the closure-driven element conversions that sit next to as_ / numcast: Mat{2,3,4}::map, map2 (both layouts), the in-place twins apply, apply2 (run twice in sequence, so the second call starts from a non-trivial prior state), Rect::map, Rect3::map (separate closures for position and extent elements), Aabr::map, Aabb::map, on pairwise distinct opaque symbols with injective, non-commutative closures: element (i,j) / named field of the result must be the closure's image of the element(s) at the same place. The impls have no bound on T beyond Copy, so they cannot inspect elements; recorded as bounded because a closure with side effects could observe the call order, which the property leaves open. non-trivial: all",
+        true, false, |s| {
+            s.require_classes(&["row Mat2", "row Mat3", "row Mat4", "col Mat2", "col Mat3", "col Mat4", "Rect", "Rect3", "Aabr", "Aabb", "map", "map2", "apply", "apply2"]);
+            let mut t = Tally::new();
+            macro_rules! mm { ($N:expr, $lay:ident $M:ident, $name:expr) => {{
+                let a = symmat::<$N>();
+                let mut b = [[0u32; $N]; $N]; for i in 0..$N { for j in 0..$N { b[i][j] = 300 + (7 * i + 3 * j) as u32; } }
+                let el = |f: &dyn Fn(usize, usize) -> u32| { let mut o = [[0u32; $N]; $N]; for i in 0..$N { for j in 0..$N { o[i][j] = f(i, j); } } o };
+                let els = |f: &dyn Fn(usize, usize) -> u16| { let mut o = [[Sym(0); $N]; $N]; for i in 0..$N { for j in 0..$N { o[i][j] = Sym(f(i, j)); } } o };
+                let mk = || <$lay::$M<Sym> as MatIO<Sym, $N>>::build(&a);
+                let mkb = || <$lay::$M<u32> as MatIO<u32, $N>>::build(&b);
+                expect_eq(s, &mut t, &format!("{}::map", $name), $name, s.call($name, || json!("map"), || <$lay::$M<u32> as MatIO<u32, $N>>::decode(&mk().map(|x: Sym| x.0 as u32 * 3 + 1))), el(&|i, j| a[i][j].0 as u32 * 3 + 1));
+                expect_eq(s, &mut t, &format!("{}::map2", $name), "map2", s.call($name, || json!("map2"), || <$lay::$M<u32> as MatIO<u32, $N>>::decode(&mk().map2(mkb(), |x: Sym, y: u32| x.0 as u32 * 1000 + y))), el(&|i, j| a[i][j].0 as u32 * 1000 + b[i][j]));
+                expect_eq(s, &mut t, &format!("{}::apply", $name), "apply", s.call($name, || json!("apply; apply"), || { let mut m = mk(); m.apply(|x| Sym(x.0 + 1000)); m.apply(|x| Sym(x.0 * 2 + 1)); m.decode() }), els(&|i, j| (a[i][j].0 + 1000) * 2 + 1));
+                expect_eq(s, &mut t, &format!("{}::apply2", $name), "apply2", s.call($name, || json!("apply; apply2; apply2"), || { let mut m = mk(); m.apply(|x| Sym(x.0 + 5)); m.apply2(mkb(), |x, y: u32| Sym(x.0 * 3 + y as u16)); m.apply2(mk(), |x, y: Sym| Sym(x.0 * 2 + y.0)); m.decode() }),
+                    els(&|i, j| ((a[i][j].0 + 5) * 3 + b[i][j] as u16) * 2 + a[i][j].0));
+                *t.entry("map".into()).or_insert(0) += 1;
+            }} }
+            mm!(2, rm Mat2, "row Mat2"); mm!(2, cm Mat2, "col Mat2"); mm!(3, rm Mat3, "row Mat3"); mm!(3, cm Mat3, "col Mat3"); mm!(4, rm Mat4, "row Mat4"); mm!(4, cm Mat4, "col Mat4");
+            let y = |k: u16| Sym(100 + k);
+            let pf = |p: Sym| p.0 as u32 + 1000;
+            let ef = |e: Sym| -(e.0 as i64) - 2000;
+            expect_eq(s, &mut t, "Rect::map", "Rect", s.call("Rect::map", || json!(null), || { let r = Rect { x: y(0), y: y(1), w: y(2), h: y(3) }.map(pf, ef); (r.x, r.y, r.w, r.h) }), (1100u32, 1101u32, -2102i64, -2103i64));
+            expect_eq(s, &mut t, "Rect3::map", "Rect3", s.call("Rect3::map", || json!(null), || { let r = Rect3 { x: y(0), y: y(1), z: y(2), w: y(3), h: y(4), d: y(5) }.map(pf, ef); (r.x, r.y, r.z, r.w, r.h, r.d) }), (1100u32, 1101u32, 1102u32, -2103i64, -2104i64, -2105i64));
+            expect_eq(s, &mut t, "Aabr::map", "Aabr", s.call("Aabr::map", || json!(null), || { let r = Aabr { min: Vec2 { x: y(0), y: y(1) }, max: Vec2 { x: y(2), y: y(3) } }.map(pf); [r.min.x, r.min.y, r.max.x, r.max.y] }), [1100u32, 1101, 1102, 1103]);
+            expect_eq(s, &mut t, "Aabb::map", "Aabb", s.call("Aabb::map", || json!(null), || { let r = Aabb { min: Vec3 { x: y(0), y: y(1), z: y(2) }, max: Vec3 { x: y(3), y: y(4), z: y(5) } }.map(pf); [r.min.x, r.min.y, r.min.z, r.max.x, r.max.y, r.max.z] }), [1100u32, 1101, 1102, 1103, 1104, 1105]);
+            flush(s, &t);
+        });
     rep.section("approx lifts: abs_diff_eq / relative_eq / ulps_eq on vectors, matrices, quaternions",
-        "AbsDiffEq, RelativeEq, UlpsEq on 13 vector types, 6 matrix types (both layouts) and Quaternion over f32 and f64: each element position runs through all 17^2 pairs of the float class alphabet, for epsilon in {default, 0, 1e-3} x {abs; relative with max_relative default and 0.25; ulps with max_ulps default and 0} (thorough: + max_relative 0, max_ulps 2^22, doubled epsilon), in 3 contexts (other positions equal; one other position unequal (1 vs 2); others rotating through the pair alphabet). Oracle: conjunction of the scalar approx predicate over corresponding elements; the default epsilon / max_relative / max_ulps equal the element type's. non-trivial: the varied pair is not bit-identical",
+        "AbsDiffEq, RelativeEq, UlpsEq on 13 vector types, 6 matrix types (both layouts) and Quaternion over f32 and f64: each element position runs through all 17^2 pairs of the float class alphabet, for epsilon in {default, 0, 1e-3} x {abs; relative with max_relative default and 0.25; ulps with max_ulps default and 0} (thorough: + max_relative 0, max_ulps 2^22, doubled epsilon), in 3 contexts (other positions equal; one other position unequal (1 vs 2); others rotating through the pair alphabet). Oracle: conjunction of the scalar approx predicate over corresponding elements; the default epsilon / max_relative / max_ulps equal the element type's. Added: (a) thorough squares the 38-value extended class alphabet (ULP neighbours of 1, values scaled by 2^+-40 / 2^+-400, MAX/2, pred(MAX), largest subnormal) instead of the 17 classes; (b) 'near' runs: each position through a targeted list of pairs k ULPs apart (k = 1,2,4,5,6,16 at nine magnitudes), pairs straddling max_relative 0.25 / 1e-3 and epsilon 1e-3 at scales 1, 2^+-40 (f32) / 2^+-400 (f64), sign-crossing and non-finite pairs, both orders, under all predicates above plus extreme tolerances (epsilon inf / NaN / -1 / MAX / min subnormal; max_relative 1, 2, 0.5, 1e-3, inf, NaN, -1; max_ulps 1, 4, 5, 16, u32::MAX); (c) with every eq form the negated form abs_diff_ne / relative_ne / ulps_ne is called on the same operands and must be its negation; (d) AbsDiffEq (the one approx trait integers implement) on i8, u8, i32 vectors / matrices / quaternions over the square of {MIN, MIN+1, MIN/2, -8, -1, 0, 1, 7, 8, MAX/2, MAX/2+8, MAX-1, MAX} with epsilon 0, 7, MAX, where the scalar form may panic on overflow (then the lifted form must panic too). non-trivial: the varied pair is not bit-identical",
         true, false, |s| {
             s.require_classes(&ALL_TYPES);
             s.require_classes(&["row Mat2", "row Mat3", "row Mat4", "col Mat2", "col Mat3", "col Mat4", "Quaternion", "f32", "f64", "defaults"]);
-            for p in ["abs_diff_eq", "relative_eq", "ulps_eq"] { for o in ["true", "false: varied lane only", "false: other lanes only", "false: both"] { s.require_classes(&[&format!("{}: {}", p, o)]); } }
+            for p in ["abs_diff_eq", "relative_eq", "ulps_eq", "near abs_diff_eq", "near relative_eq", "near ulps_eq", "int abs_diff_eq"] { for o in ["true", "false: varied lane only", "false: other lanes only", "false: both"] { s.require_classes(&[&format!("{}: {}", p, o)]); } }
+            s.require_classes(&["i8", "u8", "i32", "int abs_diff_eq: panic: varied lane only"]);
             let mut t = Tally::new();
             let th = s.thorough();
             macro_rules! ap { ($($T:ty),*) => { $(
@@ -848,7 +1051,17 @@ fn main() {
                 approx_lift::<Quaternion<$T>, $T>(s, &mut t, "Quaternion", 4, th, &|e| Quaternion { x: e[0], y: e[1], z: e[2], w: e[3] });
             )* } }
             ap!(f32, f64);
+            macro_rules! api { ($($T:ty),*) => { $(
+                for_all_vecs!(V => { approx_int::<V<$T>, $T>(s, &mut t, <V<$T> as VecN<$T>>::NAME, <V<$T> as VecN<$T>>::N, &|e| <V<$T> as VecN<$T>>::from_elems(e.to_vec())); });
+                approx_int::<rm::Mat2<$T>, $T>(s, &mut t, "row Mat2", 4, &|e| r2(&unflat::<$T, 2>(e))); approx_int::<cm::Mat2<$T>, $T>(s, &mut t, "col Mat2", 4, &|e| c2(&unflat::<$T, 2>(e)));
+                approx_int::<rm::Mat3<$T>, $T>(s, &mut t, "row Mat3", 9, &|e| r3(&unflat::<$T, 3>(e))); approx_int::<cm::Mat3<$T>, $T>(s, &mut t, "col Mat3", 9, &|e| c3(&unflat::<$T, 3>(e)));
+                approx_int::<rm::Mat4<$T>, $T>(s, &mut t, "row Mat4", 16, &|e| r4(&unflat::<$T, 4>(e))); approx_int::<cm::Mat4<$T>, $T>(s, &mut t, "col Mat4", 16, &|e| c4(&unflat::<$T, 4>(e)));
+                approx_int::<Quaternion<$T>, $T>(s, &mut t, "Quaternion", 4, &|e| Quaternion { x: e[0], y: e[1], z: e[2], w: e[3] });
+            )* } }
+            api!(i8, u8, i32);
             flush(s, &t);
+            s.meta("near_pairs", json!(f64::near_pairs().len()));
+            s.meta("thorough_class_alphabet", jd(&f64::classes_ext()));
             s.meta("float_class_alphabet", jd(&f64::classes()));
             s.meta("pairs_per_position", json!(f64::classes().len() * f64::classes().len()));
         });
@@ -891,7 +1104,7 @@ fn main() {
         });
     #[cfg(feature = "az")]
     rep.section("az casts on vectors (az / checked_as / saturating_as / wrapping_as / overflowing_as / unwrapped_as)",
-        "the six az-style casts on the 13 vector types for 4 core pairs (i16->i8, i8->u8, f32->u8; u16->f32 with the three casts az defines towards floats: az, checked_as, unwrapped_as) and 7 further pairs on Vec4, Vec8, Rgba (i16->u8, u8->i8, f32->i8, f64->u16, i64->u32, f64->i16; i32->f64 with three casts): each element position through the source class alphabet in 3 contexts (others benign; one other element failing; others rotating). Oracle per element: the az free function on the scalar (az::cast, checked_cast, saturating_cast, wrapping_cast, overflowing_cast, unwrapped_cast, compiled with debug assertions like vek); None iff some element is None; flag = OR of element flags; panic iff the scalar cast panics on some element. non-trivial: element non-zero or failing",
+        "the six az-style casts on the 13 vector types for 4 core pairs (i16->i8, i8->u8, f32->u8; u16->f32 with the three casts az defines towards floats: az, checked_as, unwrapped_as) and 7 further pairs on Vec4, Vec8, Rgba (i16->u8, u8->i8, f32->i8, f64->u16, i64->u32, f64->i16; i32->f64 with three casts): each element position through the source class alphabet (thorough: the sweep alphabet: every 8-bit value, a +-1 comb of the 16-bit values, +-2^k+-1 for every k, the float high-16-bit pattern comb) in 3 contexts (others benign; one other element failing; others rotating). Oracle per element: the az free function on the scalar (az::cast, checked_cast, saturating_cast, wrapping_cast, overflowing_cast, unwrapped_cast, compiled with debug assertions like vek); None iff some element is None; flag = OR of element flags; panic iff the scalar cast panics on some element. non-trivial: element non-zero or failing",
         true, false, |s| {
             s.require_classes(&ALL_TYPES);
             s.require_classes(&["az: plain", "az: panic: varied lane only", "az: panic: other lanes only", "az: panic: both",
